@@ -93,7 +93,7 @@ def main():
                   "baseline_off_cmd": "cd /repo && cargo test --workspace --no-fail-fast --offline",
                   "source_commits": [], "add_only": True},
         "engines": [
-            {"name": "verus", "path": "contracts/ + extract/ + lib/verus_backend.py", "serves_properties": ["C01","C02","C03","C04","C05","C06","C07","C10","C11","C12","C13","C14","C15","C19"], "kind_free_text": "SMT-based deductive verifier on mechanically extracted real functions"},
+            {"name": "verus", "path": "contracts/ + extract/ + lib/verus_backend.py", "serves_properties": ["C01","C02","C03","C04","C05","C06","C07","C10","C11","C12","C13","C14","C15","C16","C19"], "kind_free_text": "SMT-based deductive verifier on mechanically extracted real functions"},
             {"name": "kani", "path": "kani-harness/ + lib/kani_backend.py", "serves_properties": sorted(CLAIMS.keys()), "kind_free_text": "CBMC-based lemma harnesses over the unmodified crate (path dependency on /repo)"},
         ],
         "checks": checks,
